@@ -591,16 +591,18 @@ Qed.
    default "local", so only on/off can hit it); nothing changes *)
 Theorem mode_cmd_fails_iff c today t : in_date_range today ->
   (snd (cli_mode_cmd c today t) = false <->
-   mode_is_dir t = true /\ mode_str c <> s2b "local").
+   mode_is_dir t = true /\ c <> Local).
 Proof.
   intros R. unfold cli_mode_cmd.
   destruct (mode_is_dir t) eqn:MD.
   - destruct t as [es|]; [|discriminate]. cbn [mode_is_dir] in MD.
     cbn [cli_read_mode]. destruct (assoc n_mode es) as [[x|sub]|] eqn:A; try discriminate.
-    cbn [fst]. destruct (beq (s2b "local") (mode_str c)) eqn:E.
-    + apply beq_eq in E. cbn [snd]. split; [discriminate|]. intros [_ H]. congruence.
-    + apply beq_neq in E. unfold cli_set_mode. rewrite (date_ok _ R), A. cbn [snd].
-      split; [|reflexivity]. intros _. split; [reflexivity | congruence].
+    cbn [fst]. destruct c; cbn [mode_str].
+    + unfold cli_set_mode. rewrite (date_ok _ R), A. cbn [snd].
+      split; [|reflexivity]. intros _. split; [reflexivity | discriminate].
+    + rewrite beq_refl. cbn [snd]. split; [discriminate|]. intros [_ H]. congruence.
+    + unfold cli_set_mode. rewrite (date_ok _ R), A. cbn [snd].
+      split; [|reflexivity]. intros _. split; [reflexivity | discriminate].
   - split; [|intros [H _]; discriminate].
     destruct (beq (fst (cli_read_mode t)) (mode_str c)) eqn:E; [discriminate|].
     apply beq_neq in E. destruct (mode_cmd_sets c today t R E MD) as [OK _].
@@ -616,3 +618,235 @@ Proof.
   destruct t as [es|]; [|discriminate].
   destruct (assoc n_mode es) as [[x|sub]|]; try discriminate. reflexivity.
 Qed.
+
+(* ------------------------------------------- mixed command histories *)
+
+Definition is_mode_cmd (cz : cmd * Z) : bool := match fst cz with CMode _ => true | _ => false end.
+
+(* the mode path's node *)
+Definition mode_entry (t : tree) : option node := lookup [n_mode] t.
+
+Lemma read_mode_by_entry t1 t2 : mode_entry t1 = mode_entry t2 -> cli_read_mode t1 = cli_read_mode t2.
+Proof.
+  unfold mode_entry. destruct t1 as [e1|], t2 as [e2|]; cbn [lookup lookup_in cli_read_mode]; intros H.
+  - rewrite H. reflexivity.
+  - rewrite H. reflexivity.
+  - rewrite <- H. reflexivity.
+  - reflexivity.
+Qed.
+
+(* what a mode command does to the mode path depends on the mode path only *)
+Lemma mode_cmd_entry_congr c d t1 t2 : mode_entry t1 = mode_entry t2 ->
+  mode_entry (fst (cli_mode_cmd c d t1)) = mode_entry (fst (cli_mode_cmd c d t2)).
+Proof.
+  intros H. unfold cli_mode_cmd. rewrite (read_mode_by_entry _ _ H).
+  destruct (beq (fst (cli_read_mode t2)) (mode_str c)); [exact H|].
+  unfold cli_set_mode. destruct (parse_date (fmt_date d)).
+  - unfold mode_entry in *. destruct t1 as [e1|], t2 as [e2|]; cbn [lookup lookup_in] in H.
+    + rewrite H. destruct (assoc n_mode e2) as [[x|sub]|] eqn:A; cbn [fst lookup lookup_in];
+        rewrite ?assoc_set_entry_same; try reflexivity. congruence.
+    + rewrite H. cbn [fst lookup lookup_in assoc]. rewrite assoc_set_entry_same, beq_refl. reflexivity.
+    + rewrite <- H. cbn [fst lookup lookup_in assoc]. rewrite assoc_set_entry_same, beq_refl. reflexivity.
+    + reflexivity.
+  - unfold mode_entry in *. destruct t1 as [e1|], t2 as [e2|]; cbn [fst lookup lookup_in assoc] in *; auto.
+Qed.
+
+Lemma clean_mode_entry_tree t : mode_entry (cli_clean t) = mode_entry t.
+Proof.
+  destruct t as [es|]; [|reflexivity]. pose proof (clean_mode_entry es) as H.
+  cbn [cli_clean ents] in H. unfold mode_entry. cbn [cli_clean lookup lookup_in]. exact H.
+Qed.
+
+(* in any history of on/local/off/clean/env the mode path evolves exactly as
+   if only the mode commands had run *)
+Theorem history_mode_path cs : forall t1 t2, mode_entry t1 = mode_entry t2 ->
+  mode_entry (cli_run_all cs t1) = mode_entry (cli_run_all (filter is_mode_cmd cs) t2).
+Proof.
+  induction cs as [|[c d] r IH]; intros t1 t2 H; [exact H|].
+  cbn [cli_run_all fold_left filter is_mode_cmd fst snd].
+  destruct c as [m| |]; cbn [cli_run fst fold_left].
+  - apply IH. apply mode_cmd_entry_congr. exact H.
+  - apply IH. rewrite clean_mode_entry_tree. exact H.
+  - apply IH. exact H.
+Qed.
+
+Definition same_except_mode (t1 t2 : tree) : Prop :=
+  forall p, p <> [n_mode] -> lookup p t1 = lookup p t2.
+
+Lemma lookup_clean_head a rest t :
+  lookup (a :: rest) (cli_clean t) =
+  match t with
+  | None => None
+  | Some es =>
+      let o := match data_dir_sufs a, assoc a es with
+               | Some sufs, Some (Dir sub) => Some (Dir (clean_dir sufs sub))
+               | _, o => o
+               end in
+      match rest with
+      | [] => o
+      | _ :: _ => match o with Some (Dir sub) => lookup_in rest sub | _ => None end
+      end
+  end.
+Proof.
+  destruct t as [es|]; [|reflexivity]. cbn [cli_clean lookup].
+  destruct rest; [cbn [lookup_in] | rewrite lookup_in_cons2]; rewrite assoc_clean_root; reflexivity.
+Qed.
+
+Lemma assoc_by_lookup a t1 t2 : lookup [a] t1 = lookup [a] t2 ->
+  match t1 with Some es => assoc a es | None => None end =
+  match t2 with Some es => assoc a es | None => None end.
+Proof. destruct t1, t2; exact (fun H => H). Qed.
+
+Lemma clean_respects t1 t2 : same_except_mode t1 t2 -> same_except_mode (cli_clean t1) (cli_clean t2).
+Proof.
+  intros H p NE. destruct p as [|a rest]; [destruct t1, t2; reflexivity|].
+  destruct (beq a n_mode) eqn:E.
+  - apply beq_eq in E. subst a. destruct rest as [|b r]; [contradiction|].
+    (* below the mode path: clean leaves that entry alone *)
+    assert (L : forall t, lookup (n_mode :: b :: r) (cli_clean t) = lookup (n_mode :: b :: r) t).
+    { intros [es|]; [|reflexivity]. cbn [cli_clean lookup]. rewrite !lookup_in_cons2, assoc_clean_root.
+      replace (data_dir_sufs n_mode) with (@None (list bytes)) by (vm_compute; reflexivity). reflexivity. }
+    rewrite !L. apply H. discriminate.
+  - assert (NA : [a] <> [n_mode]) by (intros [= ->]; rewrite beq_refl in E; discriminate).
+    pose proof (assoc_by_lookup a t1 t2 (H [a] NA)) as A.
+    rewrite !lookup_clean_head.
+    destruct t1 as [e1|], t2 as [e2|]; cbn zeta.
+    + rewrite A. reflexivity.
+    + rewrite A. destruct (data_dir_sufs a); destruct rest; reflexivity.
+    + rewrite <- A. destruct (data_dir_sufs a); destruct rest; reflexivity.
+    + reflexivity.
+Qed.
+
+(* ... and every other path evolves exactly as if only the clean commands had
+   run *)
+Theorem history_other_paths cs : forall t1 t2, same_except_mode t1 t2 ->
+  same_except_mode (cli_run_all cs t1) (cli_run_all (filter (fun cz => negb (is_mode_cmd cz)) cs) t2).
+Proof.
+  induction cs as [|[c d] r IH]; intros t1 t2 H; [exact H|].
+  cbn [cli_run_all fold_left filter is_mode_cmd fst snd].
+  destruct c as [m| |]; cbn [negb cli_run fst fold_left].
+  - apply IH. intros p NE. rewrite (mode_cmd_frame_one m d t1 p NE). apply H. exact NE.
+  - apply IH. apply clean_respects. exact H.
+  - apply IH. exact H.
+Qed.
+
+(* ------------------------------------------ the oracle and the model *)
+
+Definition root_names_unique (t : tree) : Prop :=
+  match t with Some es => NoDup (map fst es) | None => True end.
+
+Lemma clean_dir_ok_model sufs sub : clean_dir_ok sufs sub (clean_dir sufs sub) = true.
+Proof.
+  unfold clean_dir_ok. rewrite !andb_true_iff. repeat split; apply forallb_forall; intros e Hin.
+  - apply clean_dir_In in Hin as [_ D]. rewrite D. reflexivity.
+  - destruct (cli_doomed sufs e) eqn:D; [reflexivity|]. cbn [orb].
+    apply mem_entry_In. apply clean_dir_In. auto.
+  - apply mem_entry_In. apply clean_dir_In in Hin. tauto.
+Qed.
+
+Lemma In_assoc_some k v es : In (k, v) es -> has_name k es = true.
+Proof.
+  intros Hin. unfold has_name. destruct (assoc k es) eqn:A; [reflexivity|].
+  exfalso. exact (assoc_None_notin _ _ A _ Hin).
+Qed.
+
+Lemma clean_sub_fst name sufs es : map fst (clean_sub name sufs es) = map fst es.
+Proof.
+  unfold clean_sub. rewrite map_map. apply map_ext. intros [k v]. cbn [fst snd].
+  destruct (beq k name); [destruct v|]; reflexivity.
+Qed.
+
+Lemma clean_root_ok_model es : NoDup (map fst es) ->
+  clean_root_ok es (clean_sub n_upload cli_upload_sufs (clean_sub n_local cli_local_sufs es)) = true.
+Proof.
+  intros ND. unfold clean_root_ok. apply andb_true_iff. split; apply forallb_forall; intros [k v] Hin; cbn [fst snd].
+  - pose proof (In_assoc_nodup _ _ _ ND Hin) as A.
+    destruct (data_dir_sufs k) as [sufs|] eqn:DS.
+    + destruct v as [x|sub].
+      * apply mem_entry_In. apply assoc_In. rewrite assoc_clean_root, DS, A. reflexivity.
+      * rewrite assoc_clean_root, DS, A. apply clean_dir_ok_model.
+    + apply mem_entry_In. apply assoc_In. rewrite assoc_clean_root, DS, A. reflexivity.
+  - assert (Hk : In k (map fst es)).
+    { rewrite <- (clean_sub_fst n_local cli_local_sufs es), <- (clean_sub_fst n_upload cli_upload_sufs).
+      apply (in_map fst) in Hin. exact Hin. }
+    apply in_map_iff in Hk as [[k' v'] [Ek Hin']]. cbn [fst] in Ek. subst k'.
+    exact (In_assoc_some _ _ _ Hin').
+Qed.
+
+Lemma others_same_set_entry es d : others_same es (set_entry n_mode (File d) es) = true.
+Proof.
+  unfold others_same. apply andb_true_iff. split; apply forallb_forall; intros e Hin.
+  - destruct (beq (fst e) n_mode) eqn:E; [reflexivity|]. cbn [orb]. apply mem_entry_In.
+    apply In_set_entry; [exact Hin|]. apply beq_neq. exact E.
+  - destruct (beq (fst e) n_mode) eqn:E; [reflexivity|]. cbn [orb]. apply mem_entry_In.
+    apply set_entry_In in Hin as [Hk | Hin]; [|exact Hin].
+    rewrite Hk, beq_refl in E. discriminate.
+Qed.
+
+Theorem oracle_accepts_model c today t : in_date_range today -> root_names_unique t ->
+  dir_diff_ok c today t (fst (cli_run c today t)) (snd (cli_run c today t)) = true.
+Proof.
+  intros R U. destruct c as [m| |]; cbn [cli_run dir_diff_ok fst snd].
+  - unfold mode_cmd_ok. destruct (beq (fst (cli_read_mode t)) (mode_str m)) eqn:E.
+    + apply beq_eq in E. rewrite (mode_cmd_noop _ _ _ E). cbn [fst snd andb]. apply tree_eqb_eq. reflexivity.
+    + apply beq_neq in E. destruct (mode_is_dir t) eqn:MD.
+      * assert (F : snd (cli_mode_cmd m today t) = false).
+        { apply (mode_cmd_fails_iff m today t R). split; [exact MD|]. intros ->.
+          destruct t as [es|]; [|discriminate]. cbn [mode_is_dir] in MD. cbn [cli_read_mode] in E.
+          destruct (assoc n_mode es) as [[x|sub]|]; try discriminate. apply E. reflexivity. }
+        rewrite F, (mode_cmd_failure_inert _ _ _ R F). cbn [negb andb]. apply tree_eqb_eq. reflexivity.
+      * destruct (mode_cmd_sets m today t R E MD) as [OK RB]. rewrite OK, RB. cbn [fst snd andb].
+        rewrite beq_refl. cbn [opt_z_eqb]. rewrite Z.eqb_refl, !andb_true_r.
+        unfold cli_mode_cmd. apply beq_neq in E. rewrite E. unfold cli_set_mode. rewrite (date_ok _ R).
+        destruct t as [es|]; [|reflexivity]. cbn [mode_is_dir] in MD.
+        destruct (assoc n_mode es) as [[x|sub]|]; try discriminate; cbn [fst ents andb];
+          apply others_same_set_entry.
+  - cbn [andb]. destruct t as [es|]; [|reflexivity]. cbn [cli_clean clean_ok].
+    apply clean_root_ok_model. exact U.
+  - cbn [andb]. apply tree_eqb_eq. reflexivity.
+Qed.
+
+(* what the oracle's verdict means *)
+Theorem clean_dir_ok_sound sufs before after : clean_dir_ok sufs before after = true ->
+  forall e, In e after <-> In e before /\ cli_doomed sufs e = false.
+Proof.
+  unfold clean_dir_ok. rewrite !andb_true_iff, !forallb_forall. intros [[A B] C] e. split.
+  - intros Hin. split; [apply mem_entry_In; auto|]. apply negb_true_iff. auto.
+  - intros [Hin D]. specialize (B e Hin). rewrite D in B. apply mem_entry_In. exact B.
+Qed.
+
+Theorem others_same_sound before after : others_same before after = true ->
+  forall e, fst e <> n_mode -> (In e before <-> In e after).
+Proof.
+  unfold others_same. rewrite andb_true_iff, !forallb_forall. intros [A B] e NE.
+  apply beq_neq in NE. split; intros Hin.
+  - specialize (A e Hin). rewrite NE in A. apply mem_entry_In. exact A.
+  - specialize (B e Hin). rewrite NE in B. apply mem_entry_In. exact B.
+Qed.
+
+Theorem clean_root_ok_sound before after : clean_root_ok before after = true ->
+  (forall k v, In (k, v) before ->
+     match data_dir_sufs k, v with
+     | Some sufs, Dir sub =>
+         exists sub', assoc k after = Some (Dir sub') /\
+                      forall e, In e sub' <-> In e sub /\ cli_doomed sufs e = false
+     | _, _ => In (k, v) after
+     end) /\
+  (forall k v, In (k, v) after -> has_name k before = true).
+Proof.
+  unfold clean_root_ok. rewrite andb_true_iff, !forallb_forall. intros [A B]. split.
+  - intros k v Hin. specialize (A _ Hin). cbn [fst snd] in A.
+    destruct (data_dir_sufs k) as [sufs|]; [destruct v as [x|sub]|]; try (apply mem_entry_In; exact A).
+    destruct (assoc k after) as [[x|sub']|]; try discriminate.
+    exists sub'. split; [reflexivity|]. apply clean_dir_ok_sound. exact A.
+  - intros k v Hin. exact (B _ Hin).
+Qed.
+
+Corollary history_mode_path_same cs t :
+  mode_entry (cli_run_all cs t) = mode_entry (cli_run_all (filter is_mode_cmd cs) t).
+Proof. exact (history_mode_path cs t t eq_refl). Qed.
+
+Corollary history_other_paths_same cs t p : p <> [n_mode] ->
+  lookup p (cli_run_all cs t) =
+  lookup p (cli_run_all (filter (fun cz => negb (is_mode_cmd cz)) cs) t).
+Proof. exact (history_other_paths cs t t (fun _ _ => eq_refl) p). Qed.
